@@ -2198,7 +2198,8 @@ class PrefetchDataset(Dataset):
         from lazy_dataset.parallel_utils import lazy_parallel_map
 
         if with_key:
-            iterable = self.keys()
+            # PrefetchDataset has no keys(), the keys are those of the input
+            iterable = input_dataset.keys()
         else:
             iterable = range(len(self.input_dataset))
 
